@@ -69,8 +69,10 @@ Section MaxVoltage.
     intros Hi Ht Hx Hy Hs Hs0 Hn Hsy Hv Hnp Hap Hlf H0 Hle Hty Hnn gain.
     pose proof (s2v_np1 d rng mi v h es x y sy ntr st nsy Hi Ht Hx Hy Hs Hs0 Hn Hsy Hv Hnp Hap Hlf H0) as Hs2v.
     cbv zeta in Hs2v.
-    destruct (sample2volts_table d rng mi) as [Himec _].
-    destruct (Himec _ _ Hs2v) as [Hapv Hlfv].
+    assert (Hapv : get_type d = Some (Some SAp) -> sample2volts d = Some (rng, mi, _))
+      by (intros E; unfold sample2volts; rewrite Hs2v, E; reflexivity).
+    assert (Hlfv : get_type d = Some (Some SLf) -> sample2volts d = Some (rng, mi, _))
+      by (intros E; unfold sample2volts; rewrite Hs2v, E; reflexivity).
     assert (Hlen : forall (f : _ -> conv),
                Z.of_nat (length (map f (firstn (Z.to_nat (ntr - nsy)) es))) = ntr - nsy).
     { intros f. rewrite map_length, firstn_length. lia. }
@@ -94,16 +96,34 @@ Section MaxVoltage.
     intros Hi Ht Hx Hy Hs Hs0 Hn Hsy Hv Hnp H0 Hty Hnn.
     pose proof (s2v_np2 d rng mi v tbl x y sy ntr st nsy Hi Ht Hx Hy Hs Hs0 Hn Hsy Hv Hnp H0) as Hs2v.
     cbv zeta in Hs2v.
-    destruct (sample2volts_table d rng mi) as [Himec _].
-    destruct (Himec _ _ Hs2v) as [Hapv Hlfv].
+    assert (Hapv : get_type d = Some (Some SAp) -> sample2volts d = Some (rng, mi, _))
+      by (intros E; unfold sample2volts; rewrite Hs2v, E; reflexivity).
+    assert (Hlfv : get_type d = Some (Some SLf) -> sample2volts d = Some (rng, mi, _))
+      by (intros E; unfold sample2volts; rewrite Hs2v, E; reflexivity).
     assert (Hl : Z.of_nat (length (zrepeat (CG (80, O)) (ntr - nsy))) = ntr - nsy).
     { unfold zrepeat. rewrite repeat_length. lia. }
     assert (Hs2 : sample2volts d = Some (rng, mi, zrepeat (CG (80, O)) (ntr - nsy) ++ zrepeat C1 sy)).
     { destruct strm; [now apply Hapv|now apply Hlfv|congruence]. }
     rewrite (max_voltage_prefix d rng mi _ _ ntr st nsy Hi Hs2 Hn Hsy Hl).
-    unfold zrepeat. now rewrite map_repeat.
+    unfold zrepeat. generalize (Z.to_nat (ntr - nsy)) as k. intros k.
+    induction k as [|k IH]; cbn [repeat map]; [reflexivity|]. injection IH as IH. now rewrite IH.
   Qed.
 End MaxVoltage.
+
+(* which entry of such a max_voltage vector applies to channel c *)
+Lemma chan_mv_map_firstn {E W} (f : E -> W) (es : list E) (n c : nat) (e0 : E) (dw : W) :
+  (n <= length es)%nat -> (c < n)%nat ->
+  chan_mv W (map f (firstn n es)) c dw = f (nth c es e0).
+Proof.
+  intros Hn Hc.
+  assert (Hl : length (map f (firstn n es)) = n) by (rewrite map_length, firstn_length; lia).
+  assert (Hnth : nth c (map f (firstn n es)) dw = f (nth c es e0)).
+  { rewrite (nth_indep _ dw (f e0)) by lia. rewrite map_nth. now rewrite nth_firstn_lt. }
+  unfold chan_mv. destruct (map f (firstn n es)) as [|m [|m' t]] eqn:Em; cbn [length] in Hl.
+  - lia.
+  - assert (c = 0)%nat by lia. subst c. exact Hnth.
+  - exact Hnth.
+Qed.
 
 (* exact arithmetic: (range / maxint / gain) * maxint = range / gain over any field *)
 Section FieldValue.
